@@ -94,7 +94,7 @@ fn sk() -> impl Strategy<Value = SK> {
     prop_oneof![Just(SK::Dep), Just(SK::Ind), Just(SK::Unord), Just(SK::Unrel), Just(SK::Trig)]
 }
 fn ck() -> impl Strategy<Value = CK> {
-    prop_oneof![Just(CK::Ev), Just(CK::Unord), Just(CK::Unrel), Just(CK::Map), Just(CK::Trig)]
+    prop_oneof![Just(CK::Ev), Just(CK::Unord), Just(CK::Unrel), Just(CK::Map), Just(CK::Trig), Just(CK::List)]
 }
 
 /// Start offsets just below the points where the varint encoding of a tick grows by a byte (encodings of ticks are part
@@ -203,6 +203,9 @@ fn cfg_strategy_inner(p: Profile, thorough: bool) -> BoxedStrategy<Cfg> {
             Profile::Prespawn => {
                 c.prespawn = true;
                 c.faults = b1 && b2;
+                // references to entities whose mapping travels in the same tick (a reference never precedes the mapping: the
+                // server entity is created by the PreSpawn step itself)
+                c.refs = b3;
                 (vis, prop_oneof![3 => Just(0u8), 1 => Just(1u8)]).prop_map(move |(v, a)| Cfg { vis: v, auth: a, ..c.clone() }).boxed()
             }
             Profile::Periodic => {
@@ -338,7 +341,7 @@ pub fn step_strategy(cfg: &Cfg, p: Profile) -> BoxedStrategy<Step> {
         (6, (0..clients, 1..3usize).prop_map(|(client, n)| Step::DeliverUpd { client, n }).boxed()),
         (if split { 2 } else { 8 }, (0..clients, any::<u16>()).prop_map(|(client, idx)| Step::DeliverMut { client, idx }).boxed()),
         (if split { 1 } else if lossy { 5 } else { 2 }, (0..clients, any::<u16>()).prop_map(|(client, idx)| Step::DropMut { client, idx }).boxed()),
-        (if split { 14 } else if lossy { 2 } else { 0 }, (0..clients, any::<u8>(), any::<bool>()).prop_map(|(client, mask, ack)| Step::PartialMut { client, mask, ack }).boxed()),
+        (if split { 14 } else if lossy { 2 } else if cfg.prespawn && cfg.refs { 3 } else { 0 }, (0..clients, any::<u8>(), any::<bool>()).prop_map(|(client, mask, ack)| Step::PartialMut { client, mask, ack }).boxed()),
         (if lossy { 4 } else { 6 }, (0..clients, 1..3usize).prop_map(|(client, n)| Step::DeliverAck { client, n }).boxed()),
         (2, (0..clients).prop_map(|client| Step::Connect { client }).boxed()),
     ];
@@ -348,7 +351,7 @@ pub fn step_strategy(cfg: &Cfg, p: Profile) -> BoxedStrategy<Step> {
         prop_oneof![3 => 2u8..12, 2 => 60u8..70, 1 => 70u8..200].prop_map(|by| Step::TickJump { by }).boxed(),
     ));
     v.push((w(wrap, 2), any::<u8>().prop_map(|fine| Step::BigJump { fine }).boxed()));
-    v.push((w(cfg.refs, 3), (0..slots, 0..slots).prop_map(|(slot, target)| Step::SetRef { slot, target }).boxed()));
+    v.push((w(cfg.refs, if cfg.prespawn { 8 } else { 3 }), (0..slots, 0..slots).prop_map(|(slot, target)| Step::SetRef { slot, target }).boxed()));
     v.push((w(cfg.refs, 1), (0..slots).prop_map(|slot| Step::DelRef { slot }).boxed()));
     v.push((w(cfg.children, 4), (0..slots, 0..slots).prop_map(|(slot, parent)| Step::SetParent { slot, parent }).boxed()));
     v.push((w(cfg.children, 2), (0..slots).prop_map(|slot| Step::DelParent { slot }).boxed()));
@@ -359,7 +362,9 @@ pub fn step_strategy(cfg: &Cfg, p: Profile) -> BoxedStrategy<Step> {
     ));
     v.push((
         w(cfg.prespawn, 4),
-        (0..clients, 0..slots, proptest::bool::weighted(0.2), any::<bool>(), proptest::bool::weighted(0.35)).prop_map(|(client, slot, kill, gap, early)| Step::PreSpawn { client, slot, kill, gap, early }).boxed(),
+        (0..clients, 0..slots, proptest::bool::weighted(0.2), any::<bool>(), proptest::bool::weighted(0.35), if cfg.refs { proptest::option::weighted(0.5, 0..slots).boxed() } else { Just(None).boxed() })
+            .prop_map(|(client, slot, kill, gap, early, refer)| Step::PreSpawn { client, slot, kill, gap, early, refer })
+            .boxed(),
     ));
     v.push((w(cfg.faults, if sessions { 4 } else { 1 }), (0..clients).prop_map(|client| Step::Disconnect { client }).boxed()));
     v.push((w(cfg.faults, if sessions { 3 } else { 1 }), (0..clients).prop_map(|client| Step::DisconnectLate { client }).boxed()));
